@@ -174,14 +174,24 @@ def check_cancel(ctx, fb, rc):
         if f.qn in ('yaclib::Task::Detach', 'yaclib::Task::ToFuture') and f.cfg is not None:
             key = 'R-CANCEL %s(%s)' % (f.qn, 'e' if f.params else '')
             ctx.instance(rc, key + ' :: ' + f.cls[:80], None)
-            st = [c for c in f.calls() if c['cn'] == 'yaclib::detail::Start']
-            if len(st) != 1 or (len(st[0]['args']) == 2) != bool(f.params):
-                ctx.report(rc, key, f.where, 'the task must be started through detail::Start with%s the given executor' %
-                           ('' if f.params else 'out'))
-            if f.n == 'Detach':
-                names = [c['cn'].split('::')[-1] for c in f.calls()]
-                if 'StoreCallback' not in names or names.index('StoreCallback') > names.index('Start'):
-                    ctx.report(rc, key, f.where, 'the Drop continuation must be stored before the chain is started')
+            w = lib_core.CoreWalker(fb)
+            w.inline_helpers = True  # the release / StoreCallback part may live in a private helper of Task
+            for pst, _ in w.run(f):
+                names = [e[1] for e in pst.events if e[0] == 'call']
+                starts = [i for i, c in enumerate(names) if c == 'yaclib::detail::Start']
+                nargs = [len(f.nodes[e[2]].get('args', [])) for e in pst.events
+                         if e[0] == 'call' and e[1] == 'yaclib::detail::Start' and e[2] < len(f.nodes) and
+                         f.nodes[e[2]].get('cn') == 'yaclib::detail::Start']
+                if len(starts) != 1 or (nargs and (nargs[0] == 2) != bool(f.params)):
+                    ctx.report(rc, key, f.where, 'the task must be started through detail::Start with%s the given '
+                               'executor' % ('' if f.params else 'out'))
+                    break
+                if f.n == 'Detach':
+                    last = [c.split('::')[-1] for c in names]
+                    if 'StoreCallback' not in last or last.index('StoreCallback') > starts[0]:
+                        ctx.report(rc, key, f.where,
+                                   'the Drop continuation must be stored before the chain is started')
+                        break
 
 
 def run(ctx):
@@ -194,6 +204,8 @@ def run(ctx):
     rl = ctx.rule('R-LAZYATTACH', 'lazy attach links and plain-stores, nothing runs', minimum=10)
     rn = ctx.rule('R-NOSTART', 'Task factories start nothing', minimum=10)
     rc = ctx.rule('R-CANCEL', 'destructor / Cancel / Detach / ToFuture protocol', minimum=10)
+    rd = ctx.rule('R-ROUTE.drop', '(shared with C05) a cancelled head (ReadyCore, coroutine PromiseType, PromiseCore) '
+                  'stores StopTag on every path of Drop()', minimum=6)
     for cfg, fb in sorted(fbs.items()):
         lib_head.check(ctx, fb, cfg, rh, None)
         check_start(ctx, fb, rs)
@@ -201,3 +213,6 @@ def run(ctx):
         check_lazy_attach(ctx, fb, rl)
         check_nostart(ctx, fb, rn)
         check_cancel(ctx, fb, rc)
+        from rules import c05
+        if c05.check_drop_stop(ctx, fb, rd) < (3 if cfg != 'K17' else 2):
+            ctx.broken('Drop() of PromiseCore / PromiseType / ReadyCore not found in %s' % cfg)
